@@ -1,4 +1,4 @@
-\* as-is: a call waiting at the renewal gate ignores its deadline -> InvBoundedWait
+\* demo (repaired by the request-gate fix): a call waiting at the renewal gate ignores its deadline -> InvBoundedWait
 CONSTANTS
   Callers = {1}
   MaxCalls = 1
